@@ -8,13 +8,11 @@ executed in a fresh module of the same name, and the macro tables it builds are 
 compilation left in the compile-time module.
 """
 import ast
-import itertools
 import multiprocessing
 import os
 import sys
 import types
 
-import hy
 import hy.core.result_macros as rm
 import hy.macros as hmac
 from hy.compiler import hy_compile
@@ -366,6 +364,25 @@ def _work(idx_range):
     return out
 
 
+def _work_shallow(idx_range):
+    """_work in a fresh thread: a forked pool worker starts on top of the checker's deep call stack, where CPython maps
+    and unmaps a 16 KiB frame-stack chunk again and again under hy's deeply recursive compiler (see hv/props/c37.py)."""
+    import threading
+    box = []
+
+    def target():
+        try:
+            box.append((True, _work(idx_range)))
+        except BaseException as e:
+            box.append((False, e))
+    t = threading.Thread(target=target)
+    t.start()
+    t.join()
+    if not box[0][0]:
+        raise box[0][1]
+    return box[0][1]
+
+
 def part_mirror(chk, scratch):
     chk.fn("hy/core/result_macros.py::compile_require", "hy/core/result_macros.py::assignment_shape",
            "hy/core/result_macros.py::module_name_str", "hy/macros.py::require", "hy/macros.py::require_vals",
@@ -397,10 +414,10 @@ def part_mirror(chk, scratch):
             step = max(1, n // (chk.jobs * 4))
             ranges = [(i, min(n, i + step)) for i in range(0, n, step)]
             with multiprocessing.get_context("fork").Pool(chk.jobs) as pool:
-                parts = pool.map(_work, ranges, chunksize=1)
+                parts = pool.map(_work_shallow, ranges, chunksize=1)
             obs = dict(x for part in parts for x in part)
         else:
-            obs = dict(_work((0, n)))
+            obs = dict(_work_shallow((0, n)))
     finally:
         sys.dont_write_bytecode = saved_dwb
         sys.path.remove(root)
